@@ -28,7 +28,7 @@ THEOREMS = [
     "Escape.content_safe", "Escape.attr_safe", "Escape.text_roundtrip", "Escape.attr_roundtrip",
     "Escape.encode_safe", "Escape.encode_roundtrip", "Escape.attval_roundtrip", "Escape.comment_safe",
     "Escape.attval_safe", "Escape.attval_no_markup", "Escape.starttag_attr_safe", "Escape.handbuilt_attr_counterexample",
-    "Escape.flatten_render", "Escape.flatten_error_iff", "Escape.flatten_balanced", "Escape.flatten_safe",
+    "Escape.page_bytes", "Escape.flatten_render", "Escape.flatten_error_iff", "Escape.flatten_balanced", "Escape.flatten_safe",
     "Escape.flatten_text",
     "Escape.double_path", "Escape.double_path_param",
     "Escape.html2stan_encode", "Escape.sig_default_safe", "Escape.sig_default_text", "Escape.sig_default_nbsp_counterexample",
@@ -88,7 +88,7 @@ PIECES = ["<", ">", "&", '"', "'", "&amp;", "&#60;", "&lt", "&lt;", "&gt;", "&qu
           "&nbsp;", "&#0;", "&#12;", "&;", "&#;", "]]>", "-->", "<!--", "<script>", "</script>", "<![CDATA[", "]]", "--", "-",
           "]", ">", ";", "#", "@", "a", "b", "x", "Z", "0", "9", " ", "\n", "\r", "\r\n", "\t", "\x0b", "\x0c", "\\", "\\x01",
           "=", "/", "\x00", "\x01", "\x08", "\x1b", "\x1f", "\x7f", "\x85", "\xa0", "\u2028", "\ufffe", "\uffff", "\ufffd",
-          "\U0001F600", "\U0010FFFF", "é", "λ", "amp;", "lt;", "quot;"]
+          "\U0001F600", "\U0010FFFF", "é", "λ", "amp;", "lt;", "quot;", "\u0338", "\u0338x", "\u20d2", "\u0307", "e\u0301"]
 CTRL = [chr(i) for i in range(32)] + ["\x7f"]
 
 
@@ -453,8 +453,11 @@ def run_tree_stream(ctx: Ctx) -> None:
     n = 1500 if ctx.quick else 12000
     reqs, impls, pay = [], [], []
     hreqs, hexp = [], []
+    freqs, fimpls = [], []
+    corpus_trees = [("E", "span", [("class", "c"), ("title", "\u0338 t")], [("T", "\u0338 onzz=1"), ("E", "b", [], [("T", "\u0338")])]),
+                    ("E", "a", [("href", "\u0338x")], [("T", "\u20d2<"), ("C", "\u0338"), ("T", "\u0338>")])]
     for i in range(n):
-        t = gen_tree(ctx.rng, 0, bad=(i % 5 == 0))
+        t = corpus_trees[i] if i < len(corpus_trees) else gen_tree(ctx.rng, 0, bad=(i % 5 == 0))
         if t[0] != "E":
             t = ("E", "div", [], [t])
         toks = tree_tokens(t)
@@ -465,6 +468,16 @@ def run_tree_stream(ctx: Ctx) -> None:
         reqs.append("escape flatten " + toks)
         impls.append(out)
         pay.append({"tree": t})
+        # the same tree through the helper every page is written with: bytes on disk
+        from pydoctor.templatewriter import writer as _writer, DOCTYPE as _DOCTYPE
+        buf = io.BytesIO()
+        try:
+            _writer.flattenToFile(buf, to_stan(t))
+            fout = "ok " + enc(buf.getvalue().decode("utf-8"))
+        except Exception as e:
+            fout = exc_name(e)
+        freqs.append("escape tofile " + enc(_DOCTYPE.decode("utf-8")) + " " + toks)
+        fimpls.append(fout)
         valid, comments_ok = tree_flags(t)
         txt = tree_text(t)
         alltext = txt + "".join(v for k, v in tree_attrs(t))
@@ -500,6 +513,7 @@ def run_tree_stream(ctx: Ctx) -> None:
         hreqs.append("escape holds " + toks)
         hexp.append((valid, tree_text(t, cdata=False)))
     ctx.compare("stan-tree~flatten", reqs, impls, pay)
+    ctx.compare("stan-tree~writer.flattenToFile", freqs, fimpls, pay)
     if ctx.model_ok:
         outs = ctx.driver.run_parallel(hreqs)
         for rq, o, (valid, txt) in zip(hreqs, outs, hexp):
@@ -770,6 +784,46 @@ def run_builder_streams(ctx: Ctx) -> None:
             if not ok:
                 ctx.fail("signature-default-became-markup", pay[-1], f"format_signature of a={v!r}: {o!r}")
     ctx.compare("builder:format_signature(str default)", reqs, impls, pay)
+    # (1b) reviewer report B: the signature of an introspected (C) function is a plain inspect.Signature whose str() is
+    #      handed to html2stan as markup. Direct oracle only (the model has no markup parser): the signature must be
+    #      shown as text — no element may come out of a default value or a string annotation.
+    import inspect
+    import types
+    from pydoctor import model as _model
+
+    def introspected_signature(default: object, ann: object = inspect.Parameter.empty) -> str:
+        system = _model.System()
+        system.options.verbosity = -1
+        mod = system.Module(system, "cext")
+        system.addObject(mod)
+
+        class builtin_function_or_method:   # the name is what _introspectThing's fallback heuristic looks at
+            def __call__(self) -> None:
+                pass
+        f = builtin_function_or_method()
+        f.__signature__ = inspect.Signature([inspect.Parameter("a", inspect.Parameter.POSITIONAL_OR_KEYWORD,
+                                                               default=default, annotation=ann)])
+        f.__doc__ = "doc"
+        system._introspectThing(types.SimpleNamespace(func=f), mod, mod)
+        return flatten(format_signature(system.allobjects["cext.func"]))
+    cases = [("<b onzz1=\"1\">x</b>", None), ("<script>xmk1</script>", None), ("<xmk2/>", None), (3, "hint<xmk3>x</xmk3>"), ("plain", None),
+             ("a&b", None), ("a<b", None)] + [(rand_string(rng, 6), None) for _ in range(n // 5)]
+    for default, ann in cases:
+        try:
+            o = introspected_signature(default, ann if ann is not None else inspect.Parameter.empty)
+        except Exception as e:
+            ctx.count("builder:introspected-signature:raises:" + exc_name(e))
+            continue
+        ctx.case("introspected " + enc(str(default)) + " " + enc(str(ann)), nontrivial_string(str(default) + str(ann)))
+        try:
+            el = ET.fromstring("<r>" + drop_illegal(o) + "</r>")
+            ok = len(el) == 0
+        except ET.ParseError:
+            ok = False
+        ctx.count("builder:introspected-signature:" + ("text" if ok and o != "(...)" else "broken" if o == "(...)" else "markup"))
+        if not ok:
+            ctx.fail("introspected-signature-parsed-as-markup", {"default": default, "annotation": ann, "out": o},
+                     f"introspected signature with default {default!r} / annotation {ann!r} is written as {o!r}")
     # (2) urllib.parse.quote and Documentable.url / taglink
     reqs, impls, pay = [], [], []
     for _ in range(5 * n):
@@ -948,6 +1002,11 @@ NOSPACE_PAYLOADS = [
 # values that make the XML re-parse of a signature / value fail on the unchanged tree (html4css1 writes U+00A0 as
 # &nbsp;): a sibling of a hostile value in the same signature exercises every "second try" path
 TRIPPERS = ["\u00a0", "a\u00a0b", "\x0c", "\ufffe", "\u2028\u00a0", "&nbsp;\u00a0"]
+# text inside math markup (epytext M{...}, reST :math: / .. math::): the argument of \\text{} / \\mbox{} and the literal
+# parameters of \\color{} are LaTeX *text*, not markup
+MATH_PAYLOADS = ["<xmk{i} onzz{i}=\"1\">n</xmk{i}>", "<script>xmk{i}</script>", "<img src=\"x\" onzz{i}=\"1\"/>"]
+# combining characters that NFC composes with the ASCII character before them (> < = and letters)
+LEADS = ["\u0338", "\u0338", "\u20d2", "\u0307", "\u0301", "\u3099", "\u0338\u0338"]
 # reST-flavoured payloads: only for positions that are not docstrings (in a docstring they are the author's markup)
 REST_PAYLOADS = [
     "<a href=\"javascript:alert({i})\">MKURL{i}</a>",   # a URI is reST markup too (standalone hyperlink): not for docstrings
@@ -1009,15 +1068,21 @@ def weak_norm(s: str) -> str:
 
 
 class Marker:
-    def __init__(self, idx: int, kind: str, payload: str):
+    def __init__(self, idx: int, kind: str, payload: str, lead: str = ""):
         self.id = "MK%04dq" % idx
         self.num = idx
         self.kind = kind
         self.payload = payload.replace("{i}", str(idx))
-        self.text = self.id + self.payload
+        # `lead`: combining characters put in FRONT of the id, so that they are the first thing of a text node or
+        # attribute value: a post-processing of the serialised page (NFC...) would compose them with the `>` or `"`
+        # that precedes them (U+0338 + '>' = U+226F)
+        self.text = lead + self.id + self.payload
 
     def lit(self) -> str:
         return repr(self.text)
+
+
+BS2 = chr(92) * 2   # a backslash as it has to be typed inside a (non-raw) docstring literal
 
 
 def gen_project(rng, pidx: int, docformat: str, force_deprecated: bool = False) -> Dict[str, Any]:
@@ -1035,7 +1100,9 @@ def gen_project(rng, pidx: int, docformat: str, force_deprecated: bool = False) 
             pl = pl.replace("\x00", "")   # NUL in a displayed value is dropped by the colorizer: C15's subject (DESIGN §8-5)
         if fix is not None:
             pl = fix(pl)
-        m = Marker(counter[0] % 10000, kind, pl)
+        lead = rng.choice(LEADS) if rng.random() < 0.25 and not kind.startswith("directive:") and kind not in (
+            "module-filename", "field-raise-name", "deprecated-package") else ""
+        m = Marker(counter[0] % 10000, kind, pl, lead)
         markers.append(m)
         return m
 
@@ -1045,10 +1112,16 @@ def gen_project(rng, pidx: int, docformat: str, force_deprecated: bool = False) 
 
     def docstring(summary_kind: str, fields: bool) -> str:
         m1 = mk(summary_kind)
-        parts = [f"Summary {doc_safe(m1)} end."]
+        # sometimes the marker (and its leading combining character) is the very first thing of the docstring
+        parts = [f"{doc_safe(m1)} end." if rng.random() < 0.3 else f"Summary {doc_safe(m1)} end."]
         if rng.random() < 0.7:
             m2 = mk(summary_kind)
             parts.append(f"\nBody text {doc_safe(m2)} more text.")
+        if docformat != "plaintext" and rng.random() < 0.25:
+            mm = mk("math-text", pool=MATH_PAYLOADS)
+            cmd = rng.choice(["text", "mbox", "textrm"])
+            inner = BS2 + cmd + "{" + doc_safe(mm) + "}"
+            parts.append(f"\nMath M{{{inner}}} done." if docformat == "epytext" else f"\nMath :math:`{inner}` done.")
         if docformat == "epytext":
             if rng.random() < 0.5:
                 parts.append(f"\nCode C{{{doc_safe(mk('inline-code'))}}} done.")
@@ -1302,7 +1375,7 @@ def check_page(name: str, raw: bytes, markers: Sequence[Tuple[str, int, str, str
     # V: the payload follows the id, verbatim modulo presentation
     joined = "".join(root.itertext())
     for mid, num, kind, payload in markers:
-        if kind.startswith("directive:"):
+        if kind.startswith("directive:") or kind.startswith("math-"):
             continue   # names, classes, ids, widths are normalised by docutils; W, S and A still apply
         want = norm_marker_text(payload)
         from urllib.parse import unquote
@@ -1390,6 +1463,26 @@ def corpus_projects() -> List[Dict[str, Any]]:
     for fmt in ("epytext", "google"):
         ms2 = [M("function-docstring", "&LT;xmk{i}&GT;m&LT;/xmk{i}&GT;"), M("constant", "&LT;xmk{i}&GT;m&LT;/xmk{i}&GT;")]
         proj(fmt, f"C3 = {ms2[1].lit()}\n" + fn("h5", "", f"Summary {ms2[0].text} end."), ms2)
+    # seeded C10-r3-2: source text that STARTS with a combining character, right after a tag
+    for fmt in ("epytext", "restructuredtext", "plaintext"):
+        ms = [Marker(9100 + k, kind, pl, lead) for k, (kind, pl, lead) in enumerate([
+            ("constant", "", "\u0338"), ("constant", " onzz{i}=1 title=x", "\u0338"), ("default", " onzz{i}=1", "\u0338"),
+            ("function-docstring", " (U+0338) is appended", "\u0338"), ("attribute-docstring", " stroke", "\u0338"),
+            ("annotation", "<xmk{i}/>", "\u20d2")])]
+        body = (f"STROKE = {ms[0].lit()}\n{Q3}{ms[4].text}{Q3}\nHOVER = {ms[1].lit()}\n"
+                + fn("negate", f"sign, stroke={ms[2].lit()}, k: Literal[{ms[5].lit()}] = None", ms[3].text))
+        proj(fmt, "from typing import Literal\n" + body, ms)
+    # reviewer report A (finding source-text-became-markup:math-text): text inside math markup
+    for fmt in ("epytext", "restructuredtext"):
+        ms = [Marker(9200 + k, kind, pl) for k, (kind, pl) in enumerate([
+            ("math-text", "<xmk{i} onzz{i}=\"1\">n</xmk{i}>"), ("math-text", "<script>xmk{i}</script>"),
+            ("math-param", "x\" onzz{i}=\"1")])]
+        t0, t1, t2 = (BS2 + "text{" + ms[0].text + "}", BS2 + "mbox{" + ms[1].text + "}", BS2 + "color{" + ms[2].text + "}{a}")
+        if fmt == "epytext":
+            doc = f"Summary.\n\n    Math M{{{t0}}} and M{{{t1}}} and M{{{t2}}} end."
+        else:
+            doc = f"Summary.\n\n    Math :math:`{t0}` end.\n\n    .. math:: {t1}\n\n    .. math::\n\n       {t2}\n    "
+        proj(fmt, fn("mathy", "", doc), ms)
     for pr in projs:
         ast.parse(pr["files"]["tp/__init__.py"])   # a corpus project that does not even parse would test nothing
     return projs
@@ -1444,6 +1537,10 @@ def taint_signature(sig: str) -> str:
     # the one confirmed defect gets the signature under which it is recorded
     if sig.startswith("source-text-became-markup:deprecated-replacement"):
         return "rst-injection:" + sig.split(":", 1)[1]
+    # one root cause (math2html's unescaped text mode / literal parameters), whatever the payload turned into
+    m = re.match(r"^(marker-in-script|marker-outside-text|page-not-well-formed):(math-(?:text|param))$", sig)
+    if m:
+        return "source-text-became-markup:" + m.group(2)
     return sig
 
 
